@@ -18,7 +18,10 @@ MANIFEST = dict(
          "/repo on every run (every logx.Fatal*/os.Exit site reachable after the first notedownSrc is one of the four modelled ones; the source "
          "has no explicit panic() and by running the rebuilt binary on ~190 structured damaged inputs with predicted exit code and directory "
          "effect (flag errors and near-valid flag VALUES, missing files/dirs/packages/types, wrong kinds, bad REST result lists, duplicate "
-         "aliases, reserved-method misuse, format failures) plus seeded random ones and an enumerated stream of unpredicted damage (token "
+         "aliases, reserved-method misuse, format failures, -type names that resolve to functions / constants / variables / enum members / "
+         "methods / imported packages / predeclared identifiers) plus histories of runs in one directory (per-type outputs -> all-in-one "
+         "-> again) next to files matching the clean glob with extreme first lines (empty, no newline, CRLF, 64 KiB..200 KB), "
+         "seeded random ones and an enumerated stream of unpredicted damage (token "
          "deletion, ill-typed fields, malformed directives/tags, unsupported signatures, odd free-text flag values) where only the property "
          "is evaluated. The six runtime panics and the Clean defect this check found were repaired in /repo; no finding region is left. "
          "PARTIAL by nature: absence of Go runtime panics is sampled, not proved.",
@@ -121,7 +124,7 @@ def random_cases(ctx, start):
         good = pkg["elig_hint"]
         fnames = [f["name"] for f in pkg["files"]]
         choice = rng.choice(["none", "typeMissing", "fileMissing", "fileNotGo", "noSelection", "unknownFlag", "dirMissing",
-                             "badFlagValue", "unknownSub", "typeMissing2", "nearValue", "nearValue"])
+                             "badFlagValue", "unknownSub", "typeMissing2", "nearValue", "nearValue", "notAType", "notAType"])
         if choice == "nearValue":
             c = near_value_case(rng, "r%d" % (start + i))
             if c:
@@ -139,6 +142,21 @@ def random_cases(ctx, start):
                 continue
             args, dmg = [cmd] + fl + ["-type=%s,Nope" % rng.choice(good)], "typeMissing"
             outs = ["x"] if cmd == "enum" else []
+        elif choice == "notAType":
+            # a name the package declares, but not as a type: a function, a constant, a variable
+            nont = [d["name"] for f in pkg["files"] for d in f["decls"] if d["k"] in ("func", "other") and not d.get("recv") and d.get("name")]
+            nont += [x for f in pkg["files"] for d in f["decls"] if d["k"] == "consts" for sp in d["specs"] for x in sp["names"] if x != "_"]
+            if not nont:
+                continue
+            nm = rng.choice(nont)
+            form = rng.choice(["alone", "with-good", "with-file"])
+            if form == "with-file":
+                args, dmg = [cmd] + fl + ["-file=" + rng.choice(fnames), "-type=" + nm], "notInFile"
+            elif form == "with-good" and good:
+                args, dmg = [cmd] + fl + ["-type=" + ",".join(rng.sample([rng.choice(good), nm], 2))], "typeMissing"
+                outs = ["x"] if cmd == "enum" else []
+            else:
+                args, dmg = [cmd] + fl + ["-type=" + nm], "typeMissing"
         elif choice == "fileMissing":
             args, dmg = [cmd] + fl + ["-file=nope.go"], "fileMissing"
         elif choice == "fileNotGo":
